@@ -1,9 +1,11 @@
 (* C46 -- line-protocol driver around the acceptor extracted from C46Model.v (step_fn / init / holders / inside).
-   stdin:  T <name> <posts|quiet>      start of a trace, with the kind of code the trace is checked against
-           S | O p | W p | E p | L p | P p | XP p | XQ p     events
+   stdin:  T <name> <posts|quiet|release>   start of a trace, with the kind of code the trace is checked against
+           S | O p | W p | E p | L p | P p       events
+           X p <0|1>                             process p ended through exit(); 1: its static destructor posted
+           K p                                   process p ended without running any code (_exit)
            Q v                          quiescent probe: sem_getvalue read v on the real semaphore (-1: absent)
            END
-   stdout: ACCEPT <name> events=<n> maxholders=<h> maxinside=<i>
+   stdout: ACCEPT <name> events=<n> maxholders=<h> maxinside=<i> final=<value|-1> lost=<l> holders=<h>
            REJECT <name> at=<index> line=<text> why=<step|probe model=<m> real=<v>> *)
 open C46_model
 
@@ -18,17 +20,23 @@ let event_of_line l =
   | ["E"; p] -> Some (Enter (nat_of_int (int_of_string p)))
   | ["L"; p] -> Some (Leave (nat_of_int (int_of_string p)))
   | ["P"; p] -> Some (Post (nat_of_int (int_of_string p)))
-  | ["XP"; p] -> Some (ExitPost (nat_of_int (int_of_string p)))
-  | ["XQ"; p] -> Some (ExitQuiet (nat_of_int (int_of_string p)))
+  | ["X"; p; "1"] -> Some (Exit (nat_of_int (int_of_string p), true))
+  | ["X"; p; "0"] -> Some (Exit (nat_of_int (int_of_string p), false))
+  | ["K"; p] -> Some (Kill (nat_of_int (int_of_string p)))
   | _ -> None
 
+let value_of s = match s.sem with None -> -1 | Some x -> int_of_nat x
+
 let () =
-  let name = ref "" and kind = ref DtorQuiet and st = ref (Some init) and idx = ref 0 in
+  let name = ref "" and kind = ref DtorRelease and st = ref (Some init) and idx = ref 0 in
   let maxh = ref 0 and maxi = ref 0 and verdict = ref "" in
   let finish () =
     if !name <> "" then begin
-      if !verdict = "" then Printf.printf "ACCEPT %s events=%d maxholders=%d maxinside=%d\n" !name !idx !maxh !maxi
-      else Printf.printf "REJECT %s %s\n" !name !verdict
+      match !verdict, !st with
+      | "", Some s ->
+          Printf.printf "ACCEPT %s events=%d maxholders=%d maxinside=%d final=%d lost=%d holders=%d\n" !name !idx !maxh !maxi
+            (value_of s) (int_of_nat s.lost) (int_of_nat (holders s.procs))
+      | v, _ -> Printf.printf "REJECT %s %s\n" !name v
     end in
   (try
     while true do
@@ -36,13 +44,14 @@ let () =
       let ws = String.split_on_char ' ' (String.trim l) in
       match ws with
       | "T" :: n :: k :: _ ->
-          name := n; kind := (if k = "posts" then DtorPosts else DtorQuiet);
+          name := n;
+          kind := (match k with "posts" -> DtorPosts | "quiet" -> DtorQuiet | _ -> DtorRelease);
           st := Some init; idx := 0; maxh := 0; maxi := 0; verdict := ""
       | ["END"] -> finish (); name := ""
       | ["Q"; v] ->
           (match !st with
            | Some s when !verdict = "" ->
-               let m = (match s.sem with None -> -1 | Some x -> int_of_nat x) in
+               let m = value_of s in
                if m <> int_of_string v then
                  verdict := Printf.sprintf "at=%d line=%s why=probe model=%d real=%s" !idx (String.trim l) m v
            | _ -> ());
